@@ -50,10 +50,26 @@ type scenario struct {
 	// (TMPDIR unusable), "other" = in another directory of the same file
 	// system (TMPDIR usable), the two placements renameio chooses between.
 	Tmp string `json:"tmpdir"`
+	// Fault: "" = none; "fsize-half" / "fsize-last" = during save 1 the
+	// process may not grow any file beyond half / all but one byte of the
+	// wanted size (RLIMIT_FSIZE, the portable stand-in for a full disk: the
+	// write that crosses the limit is cut short and the next one fails).  The
+	// save must then fail and leave the previous version in place at every
+	// instant; save 2 runs without the limit.
+	Fault string `json:"fault,omitempty"`
 }
 
 func (s scenario) id() string {
+	if s.Fault != "" {
+		return fmt.Sprintf("%s/size=%d/old=%v/tmp=%s/fault=%s", s.Kind, s.Size, s.Old, s.Tmp, s.Fault)
+	}
 	return fmt.Sprintf("%s/size=%d/old=%v/tmp=%s", s.Kind, s.Size, s.Old, s.Tmp)
+}
+
+// failing reports whether save 1 of the scenario is a save that must fail and
+// leave the previous version in place.
+func (s scenario) failing() bool {
+	return s.Fault != "" || s.Kind == "filterfail" || s.Kind == "seturlfail"
 }
 
 type caseC struct {
@@ -76,7 +92,7 @@ func sizes(tier string) []int {
 }
 
 func scenarios(tier string) (out []scenario) {
-	for _, kind := range []string{"config", "upgrade", "leases", "filter", "filterfail"} {
+	for _, kind := range []string{"config", "upgrade", "leases", "filter", "filterfail", "seturl", "seturlfail"} {
 		for _, sz := range sizes(tier) {
 			for _, old := range []bool{true, false} {
 				for _, tmp := range []string{"same", "other"} {
@@ -85,11 +101,12 @@ func scenarios(tier string) (out []scenario) {
 						// three sizes are enough for the one extra write path.
 						continue
 					}
-					if kind == "filterfail" && (!old || (sz != 4096 && sz != 1<<20)) {
-						// A failing refresh of an existing list: two sizes.
+					if (kind == "filterfail" || kind == "seturl" || kind == "seturlfail") && (!old || (sz != 4096 && sz != 1<<20)) {
+						// A failing refresh of an existing list, and changing the
+						// address of an existing list (download succeeds / breaks): two sizes.
 						continue
 					}
-					if kind != "filter" && kind != "filterfail" && sz == 1 {
+					if kind != "filter" && kind != "filterfail" && kind != "seturl" && kind != "seturlfail" && sz == 1 {
 						// Same file as size 0: the writer's minimum.
 						continue
 					}
@@ -104,10 +121,20 @@ func scenarios(tier string) (out []scenario) {
 						continue
 					}
 					sc := scenario{Kind: kind, Size: sz, Old: old, Tmp: tmp}
-					if only := os.Getenv("VERIF_C14_ONLY"); only != "" && !strings.Contains(sc.id(), only) {
-						continue // development aid
+					cand := []scenario{sc}
+					if old && (kind == "config" || kind == "leases" || kind == "filter") && (sz == 4096 || sz == 1<<20) {
+						for _, f := range []string{"fsize-half", "fsize-last"} {
+							fs := sc
+							fs.Fault = f
+							cand = append(cand, fs)
+						}
 					}
-					out = append(out, sc)
+					for _, sc := range cand {
+						if only := os.Getenv("VERIF_C14_ONLY"); only != "" && !strings.Contains(sc.id(), only) {
+							continue // development aid
+						}
+						out = append(out, sc)
+					}
 				}
 			}
 		}
@@ -153,12 +180,12 @@ func (r *runner) childArgs(dir string) []string {
 	if r.sc.Old {
 		old = "1"
 	}
-	return []string{"-child", "-kind", r.sc.Kind, "-dir", dir, "-size", strconv.Itoa(r.sc.Size), "-old", old, "-calib", r.calib}
+	return []string{"-child", "-kind", r.sc.Kind, "-dir", dir, "-size", strconv.Itoa(r.sc.Size), "-old", old, "-calib", r.calib, "-fault", r.sc.Fault}
 }
 
 // calibrate asks an untraced child for the padding that gives the wanted size.
 func (r *runner) calibrate() (actual int, err error) {
-	if r.sc.Kind == "filter" || r.sc.Kind == "filterfail" {
+	if r.sc.Kind == "filter" || r.sc.Kind == "filterfail" || r.sc.Kind == "seturl" || r.sc.Kind == "seturlfail" {
 		// Analytic: see filterBody.
 		r.calib = "-"
 		return max(r.sc.Size, 2), nil
@@ -336,6 +363,10 @@ func (r *runner) killAt(rec *recording, k int) (b []byte, present, ok bool, why 
 	return nil, false, false, why, nil
 }
 
+// errAbsentAfterSave: the destination does not exist once the first observed
+// save has returned (killed at marker 2) — neither version is there.
+var errAbsentAfterSave = errors.New("destination absent at marker 2 (the first save has returned)")
+
 // record performs run 1 and the two reference kills (at markers 1 and 2) that
 // give the complete versions, and builds the model.
 func (r *runner) record() (rec *recording, err error) {
@@ -376,7 +407,7 @@ func (r *runner) record() (rec *recording, err error) {
 				return nil, fmt.Errorf("%s: destination present=%v at marker 1", r.sc.id(), present)
 			}
 		} else if !present {
-			return nil, fmt.Errorf("%s: destination absent at marker 2 (the first save returned)", r.sc.id())
+			return nil, errAbsentAfterSave
 		}
 		rec.versions[j] = b
 		if rec.refKill == nil {
@@ -384,7 +415,7 @@ func (r *runner) record() (rec *recording, err error) {
 		}
 		rec.refKill[rec.markers[j]] = killOutcome{b: b, present: present}
 	}
-	if bytes.Equal(rec.versions[1], rec.versions[2]) || (rec.hasV0 && r.sc.Kind != "filterfail" && bytes.Equal(rec.versions[0], rec.versions[1])) {
+	if bytes.Equal(rec.versions[1], rec.versions[2]) || (rec.hasV0 && !r.sc.failing() && bytes.Equal(rec.versions[0], rec.versions[1])) {
 		return nil, fmt.Errorf("%s: successive versions are equal, the scenario is vacuous", r.sc.id())
 	}
 	// Paths in the model are those of the recording run.
@@ -512,6 +543,13 @@ func run(c *lib.Ctx) {
 			return
 		}
 		rec, err := r.record()
+		if errors.Is(err, errAbsentAfterSave) {
+			if owner {
+				cs := caseC{Scenario: sc, Mode: "final", Observed: "absent", Allowed: "complete v0 or complete v1"}
+				c.Violation("absent-after-save:"+sc.Kind, fmt.Sprintf("after the first save has returned (process killed at the marker that follows it) the destination does not exist at all\nscenario: %s", sc.id()), cs)
+			}
+			continue
+		}
 		if err != nil {
 			c.EngineError(err.Error())
 			return
@@ -521,11 +559,16 @@ func run(c *lib.Ctx) {
 			c.Count("recorded_window_calls", int64(rec.markers[2]-rec.markers[0]+1))
 			c.Max("max_file_bytes", int64(len(rec.versions[1])))
 			c.Distinct("file_sizes", sc.Kind+":"+strconv.Itoa(len(rec.versions[1])))
-			if sc.Kind == "filterfail" {
-				// Save 1 is a failed refresh: the stored list must be unchanged.
+			if sc.failing() {
+				// Save 1 failed: the stored file must be unchanged.
+				c.Count("failing_save_scenarios", 1)
 				if !bytes.Equal(rec.versions[1], rec.versions[0]) {
 					cs := caseC{Scenario: sc, Mode: "final", Observed: "changed-by-failed-save", Allowed: "v0"}
-					c.Violation("failed-save-changed-file:"+sc.Kind, describe(sc, rec, fmt.Sprintf("a refresh whose download broke half-way changed the stored list: %d bytes before, %d bytes after", len(rec.versions[0]), len(rec.versions[1]))), cs)
+					what := "a refresh whose download broke half-way"
+					if sc.Fault != "" {
+						what = "a save that failed because the file could not grow (" + sc.Fault + ")"
+					}
+					c.Violation("failed-save-changed-file:"+sc.Kind, describe(sc, rec, fmt.Sprintf("%s changed the stored file: %d bytes before, %d bytes after", what, len(rec.versions[0]), len(rec.versions[1]))), cs)
 				}
 			} else if sc.Kind == "upgrade" {
 				// The upgraded file gains the keys the migration adds, and the
@@ -603,8 +646,17 @@ func replay(c *lib.Ctx, raw json.RawMessage) string {
 		return "engine: " + err.Error()
 	}
 	rec, err := r.record()
+	if errors.Is(err, errAbsentAfterSave) {
+		return err.Error() + "\nscenario: " + cs.Scenario.id()
+	}
 	if err != nil {
 		return "engine: " + err.Error()
+	}
+	if cs.Mode == "final" {
+		if cs.Scenario.failing() && !bytes.Equal(rec.versions[1], rec.versions[0]) {
+			return fmt.Sprintf("a failing save changed the stored file: %d bytes before, %d bytes after\nscenario: %s", len(rec.versions[0]), len(rec.versions[1]), cs.Scenario.id())
+		}
+		return ""
 	}
 	if cs.Mode == "kill" {
 		if cs.K < rec.markers[0] || cs.K > rec.markers[2] || !killCalls[rec.rel[cs.K].Name] {
